@@ -182,6 +182,12 @@ def run(tier, exe=None, info=None):
                 ok_variants.append(v["name"])
             if v["nontrivial"]:
                 pairs_nt += 1
+            if v.get("soft"):
+                ck.violation("C07:sign-of-zero@%s_%s" % (k["ptr"], v["isa"]),
+                             "%s and %s produce numerically equal floating point outputs that differ in the sign of zero in %d of %d "
+                             "compared calls (no value difference in those calls); first (case %d): %s" %
+                             (v["name"], d["c"], v["soft"], v["calls"], v["soft_first_case"], v["soft_desc"]),
+                             {"k": k["ptr"], "v": v["name"], "case": v["soft_first_case"], "tier": tier})
             if v["mismatches"]:
                 ck.violation("C07:mismatch@%s_%s" % (k["ptr"], v["isa"]),
                              "%s differs from %s in %d of %d compared calls; first (case %d): %s" %
@@ -223,6 +229,7 @@ def run(tier, exe=None, info=None):
         "kernels_covered": len(covered),
         "kernels_with_simd_not_covered": len(not_covered),
         "per_driver": perdrv,
+        "driver_alphabets": {k: v for m in kern_gen.rule_modules(GROUPS) for k, v in getattr(m, "DOC", {}).items()},
         "covered": covered,
         "not_covered": not_covered,
         "c_only_pointers": c_only,
